@@ -463,6 +463,12 @@ def c06():
             qs.append(Q(f"rule_loop_n{n}", "fsm.cpp", "vh_rule_loop", {"NS": n, "SCRIPT": 5, "VH_RULE_LOOP": None}, unwind=n + 9, unwindset={"runGraphite": 8, "vh_rule_loop": 9}, tiers=tiers,
                         unit_flags={"Pass": ["-fno-inline"]}, stubs=["_ZNK9graphite24Pass11findNDoRuleERPNS_4SlotERNS_2vm7MachineERNS_18FiniteStateMachineE"]))
         qs.append(Q(f"adjust_n{n}", "fsm.cpp", "vh_adjust", {"NS": n}, unwind=n + 6, unwindset={"adjustSlot": 6, "make_pass": 8}, tiers=tiers))
+    for ai, bi in (("0", "1"), ("1", "0"), ("0", "0"), ("0,1", "2"), ("0,2", "1"), ("1,2", "0"), ("0,1", "1"), ("0,1", "1,2"), ("0,2", "1,3"), ("1,3", "0,2"), ("0,1", "0,1")):
+        la, lb = len(ai.split(",")), len(bi.split(","))
+        nr = max(int(x) for x in (ai + "," + bi).split(",")) + 1
+        qs.append(Q(f"accumulate_a{ai.replace(',', '')}_b{bi.replace(',', '')}", "fsm.cpp", "vh_accumulate", {"NS": 1, "LA": la, "LB": lb, "NRULES": nr, "AIDX": ai, "BIDX": bi}, unwind=la + lb + 4,
+                    unwindset={"accumulate_rules": la + lb + 3, "vh_accumulate": max(la + lb, nr) + 3}, tiers=("quick", "thorough") if (ai, bi) == ("0", "0") else ("thorough",), timeout=None if (ai, bi) == ("0", "0") else 1700,
+                    note="two different entries: no verdict in 240 s (every store into the 256-entry merge buffer is a case split once the first comparison is symbolic)"))
     return qs
 
 # ------------------------------------------------------------------------------------------- C02
@@ -482,6 +488,7 @@ def c02():
              unwindset={"newSlot": b + 2, "vh_newslot_cap": b + 4, "push_back": 4, "reserve": 4, "lid:ll_calloc_split": 20, "lid:ll_malloc_split": 20, "lid:ll_realloc_split": 20, "lid:ll_memmove_sym": 20},
              cc_defs=["LL_MEM_CASES=" + ",".join(str(k) for k in sorted({0, 128 * b} | {2 * u * b for u in range(0, 5)} | {8 * c for c in (1, 2, 3, 4, 8)}))]) for b in (1, 2, 3)] + [\
            Q("runfsm_long", "fsm.cpp", "vh_runfsm_long", {"NS": 0, "LONGN": 66}, unwind=70, unwindset={"runFSM": 68, "vh_runfsm_long": 68})]
+    qs += [x for x in c06() if x.name.startswith("rule_loop")]      # the MaxRuleLoop budget of Pass::runGraphite bounds the work per position (also a C06 clause)
     return qs
 
 # ------------------------------------------------------------------------------------------- C08 / C09
